@@ -1,7 +1,8 @@
 /-
 Spec/CopyHyp.lean — decidable hypotheses of the C06 / C08 theorems (evaluated by the driver on every input):
 what a CopyTo destination must look like, and that the keys of every map of a source are pairwise distinct
-(which every Go map satisfies; the association-list representation of `Val.map` does not enforce it).
+(which every Go map satisfies; the association-list representation of `Val.map` does not enforce it; for
+pointer-keyed maps, where a `Val` does not carry pointer identity: that the nil pointer is a key at most once).
 -/
 import InspectorModel.Spec.CopySpec
 namespace Inspector
@@ -31,14 +32,19 @@ def distinctKeys : List Val → Bool
   | [] => true
   | k :: ks => keyFresh k ks && distinctKeys ks
 
+/-- At most one key is the nil pointer (the one pointer key whose identity a `Val` does carry). -/
+def nilKeysOnce : List Val → Bool
+  | [] => true
+  | k :: ks => (!k.isNilPtr || ks.all (fun y => !y.isNilPtr)) && nilKeysOnce ks
+
 mutual
-/-- The keys of every map in the value are pairwise distinct. `strict = false` exempts pointer-keyed maps
-(two distinct pointers with equal targets are distinct Go keys but equal `Val`s; C06 does not need them
-distinct, C08's `approxEq` does). -/
+/-- The keys of every map in the value are pairwise distinct. `strict = false` asks of pointer-keyed maps
+only that the nil pointer occurs at most once among the keys (two distinct non-nil pointers with equal
+targets are distinct Go keys but equal `Val`s; C06 does not need them distinct, C08's `approxEq` does). -/
 def KeysOK (strict : Bool) : Node → Val → Bool
   | n, .ptr w => KeysOK strict (n.withPtr false) w
   | .struct _ ch, .struct fs => KeysOKs strict ch fs
-  | .map _ k v, .map _ ks vs => ((!strict && k.ptr) || distinctKeys ks) && KeysOKall strict v vs
+  | .map _ k v, .map _ ks vs => ((!strict && k.ptr && nilKeysOnce ks) || distinctKeys ks) && KeysOKall strict v vs
   | .slice _ e, .slice _ es _ => KeysOKall strict e es
   | _, _ => true
 termination_by structural _ v => v
